@@ -72,8 +72,14 @@ def get_mask_with_key_joins(data, key_joins, subset_state, view=None):
                 # sides have to be stored with the same dtype for equal
                 # values to match (e.g. int32 and int64, or <U2 and <U4).
                 dtype = np.promote_types(key_left.dtype, key_right.dtype)
-                key_left_all.append(np.asarray(key_left, dtype=dtype))
-                key_right_all.append(np.asarray(key_right, dtype=dtype))
+                key_left = np.asarray(key_left, dtype=dtype)
+                key_right = np.asarray(key_right, dtype=dtype)
+                if dtype.kind == 'f':
+                    # -0.0 and 0.0 are equal but are stored differently
+                    key_left = key_left + 0.
+                    key_right = key_right + 0.
+                key_left_all.append(key_left)
+                key_right_all.append(key_right)
 
             key_left_all = concatenate_arrays(*key_left_all)
             key_right_all = concatenate_arrays(*key_right_all)
